@@ -564,6 +564,15 @@ func (w *World) registerIntrinsics() {
 		}
 		return e.mkSlice(types.Typ[types.String], vs)
 	}
+	I["(*regexp.Regexp).ReplaceAllString"] = func(e *Exec, fn *ssa.Function, a []Value) Value {
+		re := e.load(a[0].(*Pointer)).(*OpaqueVal).data.(*compiledRegex)
+		src, ok1 := str(a[1]).strVal()
+		repl, ok2 := str(a[2]).strVal()
+		if !ok1 || !ok2 {
+			e.unsupported("ReplaceAllString on symbolic strings")
+		}
+		return mkStr(re.native.ReplaceAllString(src, repl))
+	}
 	I["(*regexp.Regexp).NumSubexp"] = func(e *Exec, fn *ssa.Function, a []Value) Value {
 		re := e.load(a[0].(*Pointer)).(*OpaqueVal).data.(*compiledRegex)
 		return mkInt(int64(re.native.NumSubexp()))
